@@ -875,17 +875,20 @@ func (cx *Ctx) checkSigningCertsOnly(r *Report) {
 			return
 		}
 		for _, p := range pts {
-			okUse := false
-			for _, a := range p.Atoms {
-				if a.Neg || !strings.HasSuffix(a.TA, ".Use") && !strings.HasSuffix(a.TB, ".Use") {
-					continue
+			// (the test may sit in a predicate of the use attribute: each way that predicate can come out true counts)
+			for _, atoms := range fx.altExpansions(p.Atoms, 16) {
+				okUse := false
+				for _, a := range atoms {
+					if a.Neg || !strings.HasSuffix(a.TA, ".Use") && !strings.HasSuffix(a.TB, ".Use") {
+						continue
+					}
+					if a.Op == "EMPTY" || a.Op == "EQ" && (a.A == "const:signing" || a.B == "const:signing") {
+						okUse = true
+					}
 				}
-				if a.Op == "EMPTY" || a.Op == "EQ" && (a.A == "const:signing" || a.B == "const:signing") {
-					okUse = true
+				if !okUse {
+					bad = "a certificate is added to the returned list at " + w.InstrPos(ap) + " on a path that did not establish use == \"\" or use == \"signing\" (" + atomsStringT(atoms) + ")"
 				}
-			}
-			if !okUse {
-				bad = "a certificate is added to the returned list at " + w.InstrPos(ap) + " on a path that did not establish use == \"\" or use == \"signing\" (" + atomsStringT(p.Atoms) + ")"
 			}
 		}
 	}
